@@ -67,6 +67,7 @@ def check_load_custom(h, cols, pix):
         d = parse_dump(out)
         if d is None: return f"a custom tileset matching the format description was not loaded ({out[:40]})"
         if (d.w, d.h, d.bits) != (32, -h, 8): return f"loaded {d.w}x{d.h} {d.bits} bit instead of 32x{-h} 8 bit"
+        if d.pal is None or d.pix is None: return None   # only hashes were printed (larger than the drivers' hex limit)
         if d.colors() != cols: return "a colour differs (stored order is blue, green, red, alpha)"
         if d.pix != pix: return "pixels differ"
         return None
